@@ -11,6 +11,7 @@ GNext ==
   \/ \E b \in 0..(cf.nbr - 1) : A_Suggest(b) /\ H([a |-> "Suggest", b |-> b])
   \/ \E t \in Trials, v \in cf.vals, c \in cf.costs : A_Report(t, v, c) /\ H([a |-> "Report", t |-> t, v |-> v, c |-> c])
   \/ \E t \in Trials : cf.faults /\ A_Error(t) /\ H([a |-> "Error", t |-> t])
+  \/ \E t \in Trials : cf.completes /\ A_Complete(t) /\ H([a |-> "Complete", t |-> t])
 GSpec == GInit /\ [][GNext]_gvars
 \* print a behaviour when it cannot be extended or is long enough
 CONSTANT GenLen
